@@ -200,3 +200,146 @@ func recordChol(out *core.Out, args []string, seed int64, sum *core.Summary) err
 	}
 	return nil
 }
+
+// ---- LU histories ------------------------------------------------------------------------------
+
+type luTraceOp struct {
+	Op    string    `json:"op"`
+	A     [][]int64 `json:"a"`
+	Alpha int64     `json:"alpha"`
+	X     []int64   `json:"x"`
+	Y     []int64   `json:"y"`
+}
+
+type luTraceLine struct {
+	E     string    `json:"e"`
+	Op    luTraceOp `json:"op"`
+	Q     []int     `json:"q"`
+	At    [][]int64 `json:"at"`
+	Det   int64     `json:"det"`
+	Exact bool      `json:"exact"`
+	Err   bool      `json:"err"`
+}
+
+func init() {
+	core.RegisterRecord("matfactor-lu", recordLU)
+}
+
+func projectLU(lu *mat.LU) (at [][]int64, det int64, exact, solveErr bool, maxAbs int64) {
+	at = [][]int64{}
+	exact = true
+	o := core.Call(func() {
+		n, _ := lu.Dims()
+		for i := 0; i < n; i++ {
+			row := make([]int64, n)
+			for j := 0; j < n; j++ {
+				x := lu.At(i, j)
+				r := math.Round(x)
+				if !finite(x) || !(math.Abs(x-r) <= integralSlack) || math.Abs(r) > 1e9 {
+					exact = false
+					r = 0
+				}
+				row[j] = int64(r)
+				if a := int64(math.Abs(r)); a > maxAbs {
+					maxAbs = a
+				}
+			}
+			at = append(at, row)
+		}
+		d := lu.Det()
+		r := math.Round(d)
+		if !finite(d) || !(math.Abs(d-r) <= integralSlack*math.Max(1, math.Abs(d))) || math.Abs(r) > 1e9 {
+			exact = false
+			r = 0
+		}
+		det = int64(r)
+		b := mat.NewDense(n, 1, nil)
+		for i := 0; i < n; i++ {
+			b.Set(i, 0, 1)
+		}
+		var x mat.Dense
+		solveErr = lu.SolveTo(&x, false, b) != nil
+	})
+	if o.Panicked {
+		exact = false
+	}
+	return
+}
+
+func recordLU(out *core.Out, args []string, seed int64, sum *core.Summary) error {
+	am := parseArgs(args)
+	hist, steps, maxn := 4, 30, 4
+	if v, ok := am["hist"]; ok {
+		hist, _ = strconv.Atoi(v)
+	}
+	if v, ok := am["steps"]; ok {
+		steps, _ = strconv.Atoi(v)
+	}
+	if v, ok := am["maxn"]; ok {
+		maxn, _ = strconv.Atoi(v)
+	}
+	rng := rand.New(rand.NewSource(seed))
+	ri := func(lo, hi int) int64 { return int64(lo + rng.Intn(hi-lo+1)) }
+	for h := 0; h < hist; h++ {
+		out.Emit(luTraceLine{E: "reset", Op: luTraceOp{Op: "Reset", A: [][]int64{}, X: []int64{}, Y: []int64{}}, Q: []int{}, At: [][]int64{}, Exact: true})
+		lu := &mat.LU{}
+		n := 0
+		var det, maxAbs int64
+		usable := false // the object is known to represent a non-singular integer matrix
+		for s := 0; s < steps; s++ {
+			var op luTraceOp
+			q := []int{}
+			var o core.Outcome
+			if !usable || maxAbs > 8 || rng.Intn(12) == 0 {
+				n = 1 + rng.Intn(maxn)
+				a := make([][]int64, n)
+				for i := range a {
+					a[i] = make([]int64, n)
+					for j := range a[i] {
+						a[i][j] = ri(-2, 2)
+					}
+				}
+				op = luTraceOp{Op: "Factorize", A: a, X: []int64{}, Y: []int64{}}
+				rep := []string{"vec", "inc2", "basic"}[rng.Intn(3)]
+				o = applyLU(lu, lu, luOp{Op: "Factorize", A: a}, rep)
+			} else {
+				x, y := make([]int64, n), make([]int64, n)
+				for i := 0; i < n; i++ {
+					x[i], y[i] = ri(-2, 2), ri(-2, 2)
+				}
+				alpha := ri(1, 3)
+				if rng.Intn(2) == 0 {
+					alpha = -alpha
+				}
+				op = luTraceOp{Op: "RankOne", A: [][]int64{}, Alpha: alpha, X: x, Y: y}
+				var ok bool
+				if q, ok = rowOrder(lu); !ok {
+					sum.Fail("matfactor:record:LU.RowPivots:not-a-permutation", "no usable pivots", op)
+					break
+				}
+				rep := []string{"vec", "inc2", "basic"}[rng.Intn(3)]
+				recv := lu
+				if rng.Intn(3) == 0 {
+					recv = &mat.LU{} // update into an empty receiver and continue with it
+				}
+				o = applyLU(recv, lu, luOp{Op: "RankOne", Alpha: alpha, X: x, Y: y}, rep)
+				lu = recv
+			}
+			if o.Panicked {
+				sum.Fail("matfactor:record:LU."+op.Op+":panic", o.Text, op)
+				break
+			}
+			var at [][]int64
+			var exact, serr bool
+			at, det, exact, serr, maxAbs = projectLU(lu)
+			usable = exact && det != 0
+			out.Emit(luTraceLine{E: "call", Op: op, Q: q, At: at, Det: det, Exact: exact, Err: serr})
+			sum.Count("calls_"+op.Op, 1)
+			if !exact {
+				sum.Count("calls_leaving_a_non_integral_object", 1)
+			}
+		}
+		sum.Traces++
+	}
+	return nil
+}
